@@ -98,13 +98,16 @@ def current_cols(c: dict) -> t.List[str]:
 # tree programs: {"env": [{"schema": [[name, type]], "rows": [...]}], "prog": node, "n", "names", "ordered"}
 #   node = {"k": "base", "i"} | {"k": "step", "p", "s": <C01 step>} | {"k": "setop", "m", "l", "r"} | {"k": "byName", "am", "l", "r"}
 #        | {"k": "join", "how", "on", "l", "r"} | {"k": "crossJoin", "l", "r"} | {"k": "agg", "keys", "p"}
+#        | {"k": "win", "fn", "arg", "part", "keys", "name", "p"}   (withColumn(name, fn(arg).over(Window.partitionBy(part).orderBy(keys))))
 # the first four kinds are inside the Lean model (C07's `Prog` with every C01 step kind); the last three are run on the
 # real code only and judged by the property itself (every action against collect() of the same DataFrame)
 # ------------------------------------------------------------------------------------------------
 
 Schema = t.List[t.Tuple[str, str]]
 SETOPS = ["union", "unionAll", "intersect", "intersectAll", "exceptAll"]
-GROW_KINDS = ["union", "unionAll", "byName", "byNameMissing", "intersectAll", "exceptAll", "intersect", "join", "joinLeft", "crossJoin", "unpivot", "agg"]
+GROW_KINDS = ["union", "unionAll", "byName", "byNameMissing", "intersectAll", "exceptAll", "intersect", "join", "joinLeft", "crossJoin", "unpivot", "agg",
+              "winRank", "winDenseRank", "winRowNumber", "winSum", "winLag", "winInOperand"]
+WIN_FNS = {"winRank": "rank", "winDenseRank": "dense_rank", "winRowNumber": "row_number", "winSum": "sum", "winLag": "lag"}
 PROBE = 1000000
 
 
@@ -146,6 +149,19 @@ def schema_of(p: dict, env: t.List[dict]) -> t.Optional[Schema]:
         if not c01.valid(c):
             return None
         return list(c01.cols_after(c).items())
+    if k == "win":
+        sch = schema_of(p["p"], env)
+        if sch is None:
+            return None
+        names = {n for n, _ in sch}
+        if p["name"] in names or not set(p["part"]) <= names or not p["keys"] or not {x["name"] for x in p["keys"]} <= names:
+            return None
+        if p["fn"] in ("sum", "lag") and dict(sch).get(p["arg"]) != "int":
+            return None
+        # row_number / lag tell tied rows apart: only deterministic (as a bag) when ties are identical rows
+        if p["fn"] in ("row_number", "lag") and set(p["part"]) | {x["name"] for x in p["keys"]} != names:
+            return None
+        return sch + [(p["name"], "int")]
     if k == "agg":
         sch = schema_of(p["p"], env)
         if sch is None or not p["keys"] or not set(p["keys"]) <= {n for n, _ in sch} or "c" in p["keys"]:
@@ -197,7 +213,7 @@ def determined(p: dict, env: t.List[dict]) -> bool:
         if s["k"] == "orderBy" and p["p"]["k"] == "step" and p["p"]["s"]["k"] == "orderBy":
             return False
         return determined(p["p"], env)
-    if k == "agg":
+    if k in ("agg", "win"):
         return determined(p["p"], env)
     return determined(p["l"], env) and determined(p["r"], env)
 
@@ -288,6 +304,26 @@ def combine(rng: random.Random, env: t.List[dict], kind: str, side: str, k: t.Op
         return step(l, {"k": "unpivot", "ids": ids, "vals": ["x", "y"], "var": "var", "val": "val"}), [(n, ty) for n, ty in ls if n in ids] + [("var", "str"), ("val", "int")]
     if kind == "agg":
         return {"k": "agg", "keys": ["x"], "p": l}, [("x", "int"), ("c", "int")]
+    if kind in WIN_FNS or kind == "winInOperand":
+        # rows SELECTED BY the value of a window function whose spec has an ORDER BY: the row set depends on a clause that
+        # sits inside an expression of an inner scope
+        fn = WIN_FNS.get(kind) or rng.choice(["rank", "sum", "row_number"])
+        part = [] if rng.random() < 0.5 else ["x"]
+        if fn in ("row_number", "lag"):
+            keys = total_order(rng, [(n, ty) for n, ty in ls if n not in part])["keys"]
+        else:
+            keys = [{"name": "y", "desc": rng.random() < 0.5, "nullsFirst": rng.random() < 0.5}]
+        w = {"k": "win", "fn": fn, "arg": "y", "part": part, "keys": keys, "name": "wv", "p": l}
+        bound = rng.choice([1, 2, 2, 3]) if fn != "sum" and fn != "lag" else rng.choice([0, 1, 2, 3, 5])
+        p = step(w, {"k": "where", "p": ("bin", rng.choice(["le", "le", "lt", "gt"]), ("col", "wv"), ("lit", bound))})
+        sch = ls + [("wv", "int")]
+        if rng.random() < 0.4:
+            p = step(p, {"k": "drop", "ns": ["wv"]})
+            sch = ls
+        if kind == "winInOperand" and sch == ls:
+            r, _ = operand(rng, env, 1, tr, k)
+            p = {"k": "setop", "m": rng.choice(["union", "exceptAll", "intersectAll"]), "l": p, "r": r}
+        return p, sch
     raise ValueError(kind)
 
 
@@ -295,6 +331,12 @@ def gen_tree(rng: random.Random, kind: t.Optional[str] = None, side: t.Optional[
     env = gen_tables(rng)
     kind = kind or rng.choice(GROW_KINDS)
     side = side or rng.choice(["l", "r", "both", "both", "none"])
+    if kind.startswith("win"):
+        # partitions with several rows and tied / distinct sort values
+        e = env[0]
+        e["rows"] = e["rows"] + [[rng.choice([1, 1, 2]) if n == "x" else rng.choice([0, 1, 2, 3, 5]) if ty == "int" else rng.choice(["a", "b"]) for n, ty in e["schema"]] for _ in range(rng.randint(3, 5))]
+        if side == "r" or (side != "none" and rng.random() < 0.6):
+            side = "none"  # mostly an untruncated input: the window sees every row
     p, sch = combine(rng, env, kind, side, k)
     if rng.random() < 0.25 and [ty for _, ty in sch] == [ty for _, ty in env[1]["schema"]] and kind not in ("byName", "byNameMissing") and side != "r":
         # a second level: the (possibly truncated again) combination is united with one more operand
@@ -349,6 +391,10 @@ def show_prog(p: dict) -> str:
         return f"{show_prog(p['l'])}.join({show_prog(p['r'])}, {p['on']!r}, {p['how']!r})"
     if k == "crossJoin":
         return f"{show_prog(p['l'])}.crossJoin({show_prog(p['r'])})"
+    if k == "win":
+        arg = repr(p["arg"]) if p["fn"] in ("sum", "lag") else ""
+        keys = ", ".join(f"{x['name']} {'desc' if x['desc'] else 'asc'} nulls {'first' if x['nullsFirst'] else 'last'}" for x in p["keys"])
+        return f"{show_prog(p['p'])}.withColumn({p['name']!r}, {p['fn']}({arg}).over(Window.partitionBy({', '.join(map(repr, p['part']))}).orderBy({keys})))"
     if k == "agg":
         return f"{show_prog(p['p'])}.groupBy({', '.join(map(repr, p['keys']))}).agg(count(lit(1)).alias('c'))"
     return str(p)
@@ -357,7 +403,7 @@ def show_prog(p: dict) -> str:
 def bases_used(p: dict) -> t.Set[int]:
     if p["k"] == "base":
         return {p["i"]}
-    if p["k"] in ("step", "agg"):
+    if p["k"] in ("step", "agg", "win"):
         return bases_used(p["p"])
     return bases_used(p["l"]) | bases_used(p["r"])
 
@@ -370,6 +416,18 @@ def build_prog(p: dict, bases: t.List[t.Any], F: t.Any) -> t.Any:
         return c01.apply_step(build_prog(p["p"], bases, F), p["s"], F)
     if k == "agg":
         return build_prog(p["p"], bases, F).groupBy(*p["keys"]).agg(F.count(F.lit(1)).alias("c"))
+    if k == "win":
+        from sqlframe.duckdb import Window
+
+        cols = []
+        for key in p["keys"]:
+            c_ = F.col(key["name"])
+            d, nf = key["desc"], key["nullsFirst"]
+            cols.append(c_.asc_nulls_first() if (not d and nf) else c_.asc_nulls_last() if not d else c_.desc_nulls_last() if not nf else c_.desc_nulls_first())
+        w = Window.partitionBy(*p["part"]).orderBy(*cols) if p["part"] else Window.orderBy(*cols)
+        f = {"rank": F.rank, "dense_rank": F.dense_rank, "row_number": F.row_number}.get(p["fn"])
+        e = f() if f else (F.sum(p["arg"]) if p["fn"] == "sum" else F.lag(p["arg"], 1))
+        return build_prog(p["p"], bases, F).withColumn(p["name"], e.over(w).cast("bigint"))
     l, r = build_prog(p["l"], bases, F), build_prog(p["r"], bases, F)
     if k == "setop":
         return getattr(l, p["m"])(r)
@@ -743,7 +801,7 @@ def tree_shrinks(p: dict) -> t.Iterator[dict]:
     k = p["k"]
     if k == "base":
         return
-    kids = [("p", p["p"])] if k in ("step", "agg") else [("l", p["l"]), ("r", p["r"])]
+    kids = [("p", p["p"])] if k in ("step", "agg", "win") else [("l", p["l"]), ("r", p["r"])]
     for name, ch in kids:
         yield ch
         for sub in tree_shrinks(ch):
@@ -830,7 +888,7 @@ def run(ctx: Ctx) -> None:
     for kind in GROW_KINDS:
         for side in ("l", "r", "both"):
             for k in (0, 1, 2):
-                if side == "r" and kind in ("unpivot", "agg"):
+                if side == "r" and (kind in ("unpivot", "agg") or kind.startswith("win")):
                     continue
                 for _ in range(2 if ctx.thorough else 1):
                     c = gen_tree(ctx.rng, kind, side, k)
